@@ -23,6 +23,11 @@ from .common import *  # noqa: F401,F403
 
 UTIL = "pyxel/calibration/util.py"
 FIT = "pyxel/calibration/fitness.py"
+BOUNDED = {
+    r'^targets': 'lists of 1..3 target files (possibly repeated)',
+    r'^build_processors': '1..2 input arguments with 1..3 values each',
+    r'^init': 'non-time-domain targets',
+}      # unit-name / obligation-name patterns -> the family these obligations are proved for
 TRUSTED = ["np.nansum / ndarray.sum are abstract reductions: the contract pins the summand at an arbitrary index and the shape",
            "machine arithmetic treated as mathematical (real mode) in the fitness formulas",
            "pygmo's champion bookkeeping (champion fitness never gets worse) is outside: external C++ library",
